@@ -1230,6 +1230,18 @@ class Reaction(Object):
         new_metabolites = []
         _id_to_metabolites = dict([(x.id, x) for x in self._metabolites])
 
+        # raise the documented errors for identifiers before anything is changed
+        for metabolite in metabolites_to_add:
+            if isinstance(metabolite, str) and metabolite not in _id_to_metabolites:
+                if self._model:
+                    self._model.metabolites.get_by_id(metabolite)
+                else:
+                    raise ValueError(
+                        f"Reaction '{self.id}' does not belong to a model. "
+                        f"Either add the reaction to a model or use Metabolite objects "
+                        f"instead of strings as keys."
+                    )
+
         for metabolite, coefficient in metabolites_to_add.items():
             # Make sure metabolites being added belong to the same model, or
             # else copy them.
